@@ -7,15 +7,112 @@ C27 (wake protocol):
                          then applies the injected actions (`-` none; W = store+notify, S = store, N = notify)
                          and one runner step
   end                    prints `end pc=<point> t=<ticks> ct=<ticks>`
+C24 (ticks; `#case n prog=<stages>` or `#case n arith …`): see harness/hv_tick/src/c24.rs for the op list
+  send v,v | tick [k:v,v …] | avail [k:v,v …] | iadd/isub/idiff/dadd/dsub/dneg
 Anything else -> bad-op.
 -/
 import HvTick.Model.Wake
+import HvTick.Model.Tick
+import HvTick.Model.Ticks
 open HvTick
 
 structure DSt where
   wake : Wake.St
+  /-- C24: the program instance of the case (none for arithmetic cases) -/
+  tick : Option Tick.RSt := none
 
-def DSt.fresh : DSt := ⟨Wake.init⟩
+def DSt.fresh : DSt := ⟨Wake.init, none⟩
+
+/-! ### C24 -/
+
+def parseStage (w : String) : Option Tick.Stage :=
+  match w.toList with
+  | ['D'] => some (.defer false)
+  | ['L'] => some (.defer true)
+  | 'M' :: r => (String.ofList r).toInt?.map .map
+  | ['U', 's'] => some (.unique true)
+  | ['U', 't'] => some (.unique false)
+  | 'T' :: r => (String.ofList r).toNat?.map .tap
+  | 'C' :: r => (String.ofList r).toInt?.map (.cycle false)
+  | 'K' :: r => (String.ofList r).toInt?.map (.cycle true)
+  | 'F' :: 's' :: r => (String.ofList r).toNat?.map (.fold true)
+  | 'F' :: 't' :: r => (String.ofList r).toNat?.map (.fold false)
+  | _ => none
+
+def parseProg (tags : List String) : Option (List Tick.Stage) :=
+  match tags.filterMap (fun w => if w.startsWith "prog=" then some (w.drop 5).toString else none) with
+  | d :: _ => (d.splitOn ",").mapM parseStage
+  | [] => none
+
+def parseVals (s : String) : Option (List Int) :=
+  if s.isEmpty then none else (s.splitOn ",").mapM (fun p => p.toInt?)
+
+def parseInj : List String → Option (List (Nat × List Int))
+  | [] => some []
+  | w :: ws =>
+    match w.splitOn ":" with
+    | [k, v] =>
+      match k.toNat?, parseVals v, parseInj ws with
+      | some k, some vs, some rest => if rest.any (·.1 == k) then none else some ((k, vs) :: rest)
+      | _, _, _ => none
+    | _ => none
+
+def insertSorted (x : Int) : List Int → List Int
+  | [] => [x]
+  | y :: ys => if x ≤ y then x :: y :: ys else y :: insertSorted x ys
+
+def sortInts (l : List Int) : List Int := l.foldl (fun acc x => insertSorted x acc) []
+
+def showTaps (recs : List (Nat × List Int)) : String :=
+  let taps := (recs.map (·.1)).eraseDups
+  let tapsSorted := (sortInts (taps.map Int.ofNat)).map Int.toNat
+  let parts := tapsSorted.filterMap fun t =>
+    let vs := sortInts ((recs.filter (·.1 == t)).flatMap (·.2))
+    if vs.isEmpty then none else some s!"{t}:{",".intercalate (vs.map toString)}"
+  if parts.isEmpty then "-" else "|".intercalate parts
+
+def parseU64 (s : String) : Option UInt64 :=
+  match s.toNat? with
+  | some n => if n < 2 ^ 64 then some (UInt64.ofNat n) else none
+  | none => none
+
+def parseI64 (s : String) : Option Int64 :=
+  match s.toInt? with
+  | some n => if -(2 ^ 63) ≤ n ∧ n < 2 ^ 63 then some (Int64.ofInt n) else none
+  | none => none
+
+def showOptU (r : Option UInt64) : String := match r with | some v => toString v.toNat | none => "panic"
+def showOptI (r : Option Int64) : String := match r with | some v => toString v.toInt | none => "panic"
+
+def arith (ws : List String) : Option String :=
+  match ws with
+  | ["iadd", a, d] => do let a ← parseU64 a; let d ← parseI64 d; pure (showOptU (Ticks.instAdd a d))
+  | ["isub", a, d] => do let a ← parseU64 a; let d ← parseI64 d; pure (showOptU (Ticks.instSubDur a d))
+  | ["idiff", a, b] => do let a ← parseU64 a; let b ← parseU64 b; pure (showOptI (Ticks.instDiff a b))
+  | ["dadd", a, b] => do let a ← parseI64 a; let b ← parseI64 b; pure (showOptI (Ticks.durAdd a b))
+  | ["dsub", a, b] => do let a ← parseI64 a; let b ← parseI64 b; pure (showOptI (Ticks.durSub a b))
+  | ["dneg", a] => do let a ← parseI64 a; pure (showOptI (Ticks.durNeg a))
+  | _ => none
+
+def c24Op (st : DSt) (ws : List String) : Option (DSt × String) :=
+  match ws, st.tick with
+  | ["send", v], some s => (parseVals v).map fun vs => ({ st with tick := some (Tick.send s vs) }, "ok")
+  | "tick" :: inj, some s =>
+    match parseInj inj with
+    | some plan =>
+      if plan.all (·.1 < 3) then
+        let r := Tick.runTick s ⟨Tick.injAt plan 0, Tick.injAt plan 1, Tick.injAt plan 2, []⟩
+        some ({ st with tick := some r.1 }, s!"t={r.1.tick} out={showTaps r.2}")
+      else none
+    | none => none
+  | "avail" :: inj, some s =>
+    match parseInj inj with
+    | some plan =>
+      let r := Tick.runAvailable 100000 s plan
+      some ({ st with tick := some r.1 },
+        s!"n={r.2.length} t={r.1.tick} out={"/".intercalate (r.2.map showTaps)}")
+    | none => none
+  | _, _ => (arith ws).map fun o => (st, o)
 
 def b01 (b : Bool) : String := if b then "1" else "0"
 
@@ -29,7 +126,7 @@ def applyActs (s : Wake.St) : List Char → Option Wake.St
 def step (st : DSt) (line : String) : DSt × String :=
   let l := line.trimAscii.toString
   match l.splitOn " " with
-  | "#case" :: _ => (DSt.fresh, l)
+  | "#case" :: tags => ({ DSt.fresh with tick := (parseProg tags).map Tick.RSt.init }, l)
   | ["v", acts] =>
     let s := st.wake
     let shown := s!"{s.pc.name} t={s.ticks} f={b01 s.flag} n={b01 s.notified}"
@@ -40,7 +137,9 @@ def step (st : DSt) (line : String) : DSt × String :=
   | ["end"] =>
     let s := st.wake
     (st, s!"end pc={s.pc.name} t={s.ticks} ct={s.ticks}")
-  | _ => (st, "bad-op")
+  | ws => match c24Op st ws with
+    | some r => r
+    | none => (st, "bad-op")
 
 partial def loop (h : IO.FS.Stream) (out : IO.FS.Stream) (st : DSt) : IO Unit := do
   let line ← h.getLine
